@@ -66,6 +66,12 @@ pub fn parse_htsvoice(input: &[u8]) -> Result<Voice, ModelParseError> {
     let stream: Stream = parse_header(&in_stream)?;
     let position: Position = parse_header(&in_position)?;
 
+    // The engine sizes its per-stream settings by NUM_STREAMS and reads the spectrum
+    // options from the first stream.
+    if global.stream_type.is_empty() || global.num_streams != global.stream_type.len() {
+        return Err(ModelParseError::StreamNotFound);
+    }
+
     let (duration_model, stream_models) = parse_data_section(in_data, &global, &stream, &position)?;
 
     // TODO: verify
